@@ -2,7 +2,7 @@
    model's functions, for all arguments; hence every theorem of C05_PoolProofs holds of them. *)
 From Coq Require Import List Bool Arith Lia.
 Import ListNotations.
-From Muduo Require Import C05_Model C05_PoolProofs Gen_C05.
+From Muduo Require Import C05_Model C05_PoolProofs Gen_C05 C05_GenRun.
 
 Ltac btests :=
   repeat match goal with
@@ -17,18 +17,6 @@ Proof. intros n next. unfold gen_get_next, get_next, pinned_pshape. cbn [p_nonem
 
 Lemma gen_hash_is_model : forall n next h, gen_get_hash n next h = (get_hash pinned_pshape n h, next).
 Proof. intros n next h. unfold gen_get_hash, get_hash, pinned_pshape. cbn [p_nonempty p_wrap p_hash]. btests. Qed.
-
-(* any sequence of calls executed with the generated functions *)
-Fixpoint gen_pool_run (n next : nat) (ops : list pop) : list (option nat) * nat :=
-  match ops with
-  | [] => ([], next)
-  | PNext :: r =>
-      let '(x, next') := gen_get_next n next in
-      let '(xs, fin) := gen_pool_run n next' r in (x :: xs, fin)
-  | PHash h :: r =>
-      let '(x, next') := gen_get_hash n next h in
-      let '(xs, fin) := gen_pool_run n next' r in (x :: xs, fin)
-  end.
 
 Lemma gen_pool_run_is_model : forall n ops next, gen_pool_run n next ops = pool_run pinned_pshape n next ops.
 Proof.
